@@ -31,5 +31,20 @@ class Duck:
     def child_count(self):
         return len(self.children)
 
+    # grammar field names of the shapes used in the harnesses (node type -> field -> child kinds)
+    _FIELDS = {
+        "field_expression": {"value": None, "field": ("field_identifier",)},
+        "call_expression": {"function": ("field_expression", "identifier", "scoped_identifier"), "arguments": ("arguments",)},
+    }
+
     def child_by_field_name(self, name):
+        spec = self._FIELDS.get(str(self.type), {})
+        if name not in spec:
+            return None
+        kinds = spec[name]
+        if kinds is None:
+            return self.children[0] if self.children else None
+        for c in self.children:
+            if str(c.type) in kinds:
+                return c
         return None
